@@ -173,6 +173,23 @@ fn rank_class(vals: &[f64], full: usize) -> &'static str {
     }
 }
 
+/// Magnitude class of the input for site keys: empty for ordinary data (every member of the plain
+/// lattices and of the structured family has 2^-20 <= max|x| <= 2^20 or is the zero matrix), otherwise
+/// a suffix, so that a failure that needs tiny / huge data gets its own key.
+fn mag_class(x: &Mat) -> &'static str {
+    let top = x.iter().flat_map(|r| r.iter()).fold(0.0f64, |m, v| m.max(v.abs()));
+    if top > 0.0 && top < TINY_BELOW {
+        ":tiny-magnitude"
+    } else if top > HUGE_ABOVE {
+        ":huge-magnitude"
+    } else {
+        ""
+    }
+}
+
+pub const TINY_BELOW: f64 = 9.5367431640625e-7; // 2^-20
+pub const HUGE_ABOVE: f64 = 1048576.0; // 2^20
+
 /// Input-independent name of a panic for site keys (no line numbers, no values).
 fn panic_kind(pi: &mc::PanicInfo) -> &'static str {
     if pi.is_overflow_check() {
@@ -311,20 +328,23 @@ fn digest(pm: &FM, t: &FM) -> u64 {
 // ------------------------------------------------------------------------------------------------
 // PCA
 
-pub fn check_pca(x: &Mat, corr: bool, k: usize, family: &str) {
+/// Returns true when `fit` returned a model, every clause was evaluated and the case is non-trivial
+/// (used by the caller for the non-vacuity counters of the rescaled families).
+pub fn check_pca(x: &Mat, corr: bool, k: usize, family: &str) -> bool {
     let (n, p) = orc::shape(x);
     let rf = refs::pca_ref_cached(x);
     let comp = if corr { "pca-corr" } else { "pca-cov" };
     if corr && rf.constant_col.iter().any(|c| *c) {
         // the standardised data do not exist: outside the statement
         mc::count("corr_constant_column_outside_statement");
-        return;
+        return false;
     }
     let svd_path = n > p && !corr;
     let path = if svd_path { "svd-path" } else { "evd-path" };
     let lam_base: &Vec<f64> = if corr { &rf.lam_cor } else { &rf.lam_cov };
     let rank = rank_class(lam_base, p);
-    let site = |op: &str, clause: &str| format!("{}.{}:{}:{}:{}", comp, op, clause, path, rank);
+    let mag = mag_class(x);
+    let site = |op: &str, clause: &str| format!("{}.{}:{}:{}:{}{}", comp, op, clause, path, rank, mag);
     let head = || format!("{} n={} p={} k={} {} [{}]", comp, n, p, k, fmt_input(x), family);
 
     let xm: DenseMatrix<f64> = dm(x);
@@ -337,22 +357,22 @@ pub fn check_pca(x: &Mat, corr: bool, k: usize, family: &str) {
     let pca = match fit {
         Err(pi) => {
             mc::violation(site("fit", panic_kind(&pi)), format!("{}: fit must succeed but {}", head(), pi.brief()));
-            return;
+            return false;
         }
         Ok(Err(e)) => {
             mc::violation(site("fit", "error"), format!("{}: fit must succeed but returned Err({})", head(), e));
-            return;
+            return false;
         }
         Ok(Ok(m)) => m,
     };
     let pm = FM::of(pca.components());
     if (pm.r, pm.c) != (p, k) {
         mc::violation(site("components", "shape"), format!("{}: components() is {:?}, expected (p,k)=({},{})", head(), (pm.r, pm.c), p, k));
-        return;
+        return false;
     }
     if !pm.finite() {
         mc::violation(site("components", "non-finite"), format!("{}: components() = {}", head(), pm.fmt()));
-        return;
+        return false;
     }
 
     // ---- orthonormal columns (of the projection acting on the standardised data in correlation mode)
@@ -394,7 +414,7 @@ pub fn check_pca(x: &Mat, corr: bool, k: usize, family: &str) {
 
     // ---- the transform as a row-wise affine map, stack clause
     let tf = |m: &DenseMatrix<f64>| pca.transform(m);
-    let Some((t, err_t)) = check_map(&site, &head, x, &xm, &rf.mu, &pm, &tf, "affine-map", "(x−μ)·P", CL_AFFINE) else { return };
+    let Some((t, err_t)) = check_map(&site, &head, x, &xm, &rf.mu, &pm, &tf, "affine-map", "(x−μ)·P", CL_AFFINE) else { return false };
 
     // ---- first and second moments of the transformed training data
     let conv_factor = if corr && pop_convention { n as f64 / d_eff } else { 1.0 };
@@ -485,12 +505,14 @@ pub fn check_pca(x: &Mat, corr: bool, k: usize, family: &str) {
         mc::nontrivial();
     }
     mc::outcome(digest(&pm, &t));
+    trace_ref > 0.0
 }
 
 // ------------------------------------------------------------------------------------------------
 // truncated SVD
 
-pub fn check_tsvd(x: &Mat, k: usize, family: &str) {
+/// Returns true when `fit` returned a model, every clause was evaluated and the case is non-trivial.
+pub fn check_tsvd(x: &Mat, k: usize, family: &str) -> bool {
     let (n, p) = orc::shape(x);
     let rf = refs::svd_ref_cached(x);
     let shape_cls = if n >= p { "n>=p" } else { "n<p" };
@@ -500,7 +522,8 @@ pub fn check_tsvd(x: &Mat, k: usize, family: &str) {
         "zero-variance" => "zero-matrix",
         r => r,
     };
-    let site = |op: &str, clause: &str| format!("tsvd.{}:{}:{}:{}", op, clause, shape_cls, rank);
+    let mag = mag_class(x);
+    let site = |op: &str, clause: &str| format!("tsvd.{}:{}:{}:{}{}", op, clause, shape_cls, rank, mag);
     let head = || format!("tsvd n={} p={} k={} {} [{}]", n, p, k, fmt_input(x), family);
     let xm: DenseMatrix<f64> = dm(x);
     let fit = mc::guard(|| SVD::fit(&xm, SVDParameters::default().with_n_components(k)));
@@ -512,27 +535,27 @@ pub fn check_tsvd(x: &Mat, k: usize, family: &str) {
             Ok(Ok(_)) => mc::violation(site("fit", "k=p-accepted"), format!("{}: k = p accepted although the estimator requires k < p", head())),
             Ok(Err(_)) => mc::count("tsvd_k_eq_p_rejected"),
         }
-        return;
+        return false;
     }
     let svd = match fit {
         Err(pi) => {
             mc::violation(site("fit", panic_kind(&pi)), format!("{}: fit must succeed but {}", head(), pi.brief()));
-            return;
+            return false;
         }
         Ok(Err(e)) => {
             mc::violation(site("fit", "error"), format!("{}: fit must succeed but returned Err({})", head(), e));
-            return;
+            return false;
         }
         Ok(Ok(m)) => m,
     };
     let c = FM::of(svd.components());
     if (c.r, c.c) != (p, k) {
         mc::violation(site("components", "shape"), format!("{}: components() is {:?}, expected (p,k)=({},{})", head(), (c.r, c.c), p, k));
-        return;
+        return false;
     }
     if !c.finite() {
         mc::violation(site("components", "non-finite"), format!("{}: components() = {}", head(), c.fmt()));
-        return;
+        return false;
     }
     let defect = orth_defect_scaled(&c, None);
     let tol_o = ORTH_C * p as f64 * EPS;
@@ -542,7 +565,7 @@ pub fn check_tsvd(x: &Mat, k: usize, family: &str) {
     }
     let zero = vec![0.0; p];
     let tf = |m: &DenseMatrix<f64>| svd.transform(m);
-    let Some((t, err_t)) = check_map(&site, &head, x, &xm, &zero, &c, &tf, "not-x-times-c", "x·C", CL_T_PROD) else { return };
+    let Some((t, err_t)) = check_map(&site, &head, x, &xm, &zero, &c, &tf, "not-x-times-c", "x·C", CL_T_PROD) else { return false };
 
     // ‖X·C‖_F² = Σ_{j<=k} σ_j²
     let energy: f64 = t.v.iter().map(|v| v * v).sum();
@@ -570,4 +593,5 @@ pub fn check_tsvd(x: &Mat, k: usize, family: &str) {
         mc::nontrivial();
     }
     mc::outcome(digest(&c, &t));
+    rf.fro2 > 0.0
 }
